@@ -162,3 +162,59 @@ Contract(
     ensures=lambda c: {"invalid.post": z3.And(t_time(c.res) == -1, t_unit(c.res) == 0)},
     props=P16,
 )
+
+
+# ---- native replays of pyvc counter-models for the EventTime algebra ------------------------------------------
+from pyvc.registry import REPLAYS  # noqa: E402
+
+_ET_CASES = {
+    "utils.EventTime.__add__": ("a + b", "us(r) == us(a) + us(b)"),
+    "utils.EventTime.__sub__": ("a - b", "us(r) == us(a) - us(b)"),
+    "utils.EventTime.__eq__": ("a == b", "r == (us(a) == us(b))"),
+    "utils.EventTime.__lt__": ("a < b", "r == (us(a) < us(b))"),
+    "utils.EventTime.__mul__": ("a * k", "us(r) == us(a) * k"),
+    "utils.EventTime.__hash__": ("hash(a)", "r == us(a)"),
+    "utils.EventTime.to": ("a.to(u)", "(us(r) == us(a) and r.unit == u) if F[u] <= F[a.unit] else False"),
+}
+
+
+def _et_replay(fn):
+    call, post = _ET_CASES[fn]
+
+    def build(model, viol):
+        def et(d):
+            return "EventTime(%d, EventTime.Unit.%s)" % (d["_time"], d["_unit"])
+
+        lines = [
+            "import sys",
+            "from utils import EventTime",
+            "U = EventTime.Unit",
+            "F = {U.US: 1, U.MS: 1000, U.S: 1000000}",
+            "us = lambda t: t.time * F[t.unit]",
+            "a = " + et(model["self"]),
+        ]
+        if "other" in model and isinstance(model["other"], dict):
+            lines.append("b = " + et(model["other"]))
+        if "other" in model and isinstance(model["other"], int):
+            lines.append("k = %d" % model["other"])
+        if "unit" in model:
+            lines.append("u = U.%s" % model["unit"])
+        lines += [
+            "try:",
+            "    r = " + call,
+            "    ok = bool(" + post + ")",
+            "    print('inputs:', a, locals().get('b', locals().get('u', locals().get('k'))), '->', r, '| contract', %r, 'holds:', ok)" % post,
+            "except ValueError as e:",
+            "    refused_ok = %s" % ("F[u] > F[a.unit]" if fn.endswith(".to") else "False"),
+            "    print('raised ValueError:', e, '| refusal expected:', refused_ok)",
+            "    ok = refused_ok",
+            "sys.exit(0 if ok else 1)",
+        ]
+        return "\n".join(lines) + "\n"
+
+    return build
+
+
+for _fn in _ET_CASES:
+    REPLAYS[(_fn, "post.")] = _et_replay(_fn)
+    REPLAYS[(_fn, "noraise.")] = _et_replay(_fn)
